@@ -327,6 +327,26 @@ fn main() {
             println!("manifest_number={}", mf);
             println!("remaining={}", remaining.join(","));
         }
+        // pick_compaction size|seek level file_index pointer|none @level files...
+        "pick_compaction" => {
+            let level = num(a[2]) as usize;
+            let idx = num(a[3]) as usize;
+            let ptr = if a[4] == "none" { None } else { Some((level, key(a[4]))) };
+            let lv = levels(&a[5..]);
+            let r = if a[1] == "seek" {
+                v::pick_compaction_scenario(opts(), &lv, Some((level, idx)), None, ptr)
+            } else {
+                v::pick_compaction_scenario(opts(), &lv, None, Some(level), ptr)
+            };
+            match r {
+                Some((l, i0, i1)) => {
+                    println!("level={}", l);
+                    println!("inputs0={}", join(&i0));
+                    println!("inputs1={}", join(&i1));
+                }
+                None => println!("level=none"),
+            }
+        }
         // live_files : files at levels 0, 3 and 6; does get_live_files report all of them?
         "live_files" => {
             let mk = |n: u64, k: u8| -> v::VFile { (n, 100, (vec![k], 9), (vec![k + 1], 8)) };
